@@ -194,6 +194,14 @@ impl GlobalMonoEnv {
         }
     }
 
+    pub fn enum_def_mut(&mut self, name: &TastIdent) -> Option<&mut EnumDef> {
+        if self.mono_enums.contains_key(name) {
+            self.mono_enums.get_mut(name)
+        } else {
+            self.genv.type_env.enums.get_mut(name)
+        }
+    }
+
     pub fn insert_struct(&mut self, def: StructDef) {
         self.mono_structs.insert(def.name.clone(), def);
     }
@@ -1221,6 +1229,46 @@ pub fn mono(genv: GlobalTypeEnv, file: core::File) -> (MonoFile, GlobalMonoEnv) 
             ret_ty,
             body,
         });
+    }
+
+    // Non-generic definitions can mention instantiated generic types in their
+    // fields (`struct Holder { b: Box[int32] }`); collapse those as well.
+    let plain_structs: Vec<StructDef> = m
+        .struct_base
+        .values()
+        .filter(|def| def.generics.is_empty())
+        .cloned()
+        .collect();
+    for def in plain_structs {
+        let fields: Vec<(TastIdent, Ty)> = def
+            .fields
+            .iter()
+            .map(|(n, t)| (n.clone(), m.collapse_type_apps(t)))
+            .collect();
+        if let Some(target) = m.monoenv.struct_def_mut(&def.name) {
+            target.fields = fields;
+        }
+    }
+    let plain_enums: Vec<EnumDef> = m
+        .enum_base
+        .values()
+        .filter(|def| def.generics.is_empty())
+        .cloned()
+        .collect();
+    for def in plain_enums {
+        let variants: Vec<(TastIdent, Vec<Ty>)> = def
+            .variants
+            .iter()
+            .map(|(n, ts)| {
+                (
+                    n.clone(),
+                    ts.iter().map(|t| m.collapse_type_apps(t)).collect(),
+                )
+            })
+            .collect();
+        if let Some(target) = m.monoenv.enum_def_mut(&def.name) {
+            target.variants = variants;
+        }
     }
 
     // Drop all generic enum defs to avoid Go backend panics
